@@ -333,12 +333,35 @@ def gen_determinism(repo, out):
     return {"determinism_changed": old != text}
 
 
+def gen_ops(repo, out):
+    """Gen/Ops.lean: cache-discipline table of the public SVG operations (tools/opscan.py)"""
+    sys.path.insert(0, os.path.dirname(os.path.abspath(__file__)))
+    import opscan
+    r = opscan.scan(repo)
+    L = ["/- GENERATED by tools/translate.py (tools/opscan.py) from /repo/src/picosvg/svg.py — DO NOT EDIT. -/",
+         "namespace PicoSVG.Gen.Ops", ""]
+    L.append("/-- (operation, copying form, first self call of the in-place body, assigns self.elements = None, what it returns) -/")
+    L.append("def discipline : List (String × String × String × Bool × String) := " + lean_list(
+        "(%s, %s, %s, %s, %s)" % (lean_str(n), lean_str(c), lean_str(f), "true" if rs else "false", lean_str(rt)) for n, c, f, rs, rt in r["rows"]))
+    for k in ("_clone", "_elements", "_set_element", "shapes", "_update_etree", "toetree", "tostring"):
+        L.append("def calls%s : List String := %s" % ("".join(w.capitalize() for w in k.strip("_").split("_")), lean_list(lean_str(x) for x in r["helpers"].get(k, ["<missing>"]))))
+    L += ["", "end PicoSVG.Gen.Ops"]
+    text = "\n".join(L) + "\n"
+    path = os.path.join(out, "Ops.lean")
+    old = open(path).read() if os.path.exists(path) else None
+    if old != text:
+        with open(path, "w") as f:
+            f.write(text)
+    return {"ops_changed": old != text}
+
+
 def main():
     repo, out = sys.argv[1], sys.argv[2]
     os.makedirs(out, exist_ok=True)
     try:
         summary = gen_tables(repo, out)
         summary.update(gen_determinism(repo, out))
+        summary.update(gen_ops(repo, out))
     except Exception as e:
         import traceback
         print(json.dumps({"error": "%s: %s" % (type(e).__name__, e), "trace": traceback.format_exc()}))
